@@ -179,12 +179,38 @@ def ref_matmul(xs, args):
     return np.einsum("...ik,...kj->...ij", a, b)
 
 
+def _mm_shape(s):
+    return list(np.broadcast_shapes(tuple(s[1][:-2]), tuple(s[2][:-2]))) + [s[1][-2], s[2][-1]]
+
+
+def _size_of(shape):
+    n = 1
+    for v in shape:
+        n *= v
+    return n
+
+
 @st.composite
 def gen_addmm(draw):
     n, k, m = draw(st.integers(1, 3)), draw(st.integers(1, 3)), draw(st.integers(1, 3))
     a = draw(st.sampled_from([[], [m], [1, m], [n, 1], [n, m], [1, 1], [1]]))
-    return {"xs": [X(a, draw(gen.grid(a, -16, 16))), X([n, k], draw(gen.grid([n, k], -16, 16))),
-                   X([k, m], draw(gen.grid([k, m], -16, 16)))], "args": {}}
+    bs, cs = [n, k], [k, m]
+    wide = draw(st.integers(0, 3)) == 0
+    if wide:
+        # "x1 + x2 @ x3" with full broadcasting: batched factors, and an x1 that is LARGER than the product
+        # (extra leading dims, or a dim > 1 where the product has size 1)
+        bb, bc = draw(gen.broadcast_shapes(2, 2, 4))
+        bs, cs = list(bb) + bs, list(bc) + cs
+        prod = list(np.broadcast_shapes(tuple(bb), tuple(bc))) + [n, m]
+        a = []
+        for d in prod:
+            a.append(draw(st.sampled_from([d, d, 1])) if d > 1 else draw(st.sampled_from([1, 1, 2, 3])))
+        if draw(st.booleans()):
+            a = [draw(st.integers(1, 3))] + a
+        elif draw(st.booleans()):
+            a = a[draw(st.integers(0, len(a))):]
+    return {"xs": [X(a, draw(gen.grid(a, -16, 16))), X(bs, draw(gen.grid(bs, -16, 16))),
+                   X(cs, draw(gen.grid(cs, -16, 16)))], "args": {"wide": wide}}
 
 
 # ---- pow / rpow -------------------------------------------------------------------------------
@@ -849,9 +875,11 @@ OPS = [
     TOp("matmul", gen_matmul, apply_matmul, ref_matmul,
         nt=lambda a, s: list(s[0][:-2]) != list(s[1][:-2]), tags=lambda a, s: (["batch_broadcast"] if list(s[0][:-2]) != list(s[1][:-2]) else [])),
     TOp("addmm", gen_addmm, lambda ts, a: sg.addmm(ts[0], ts[1], ts[2]),
-        lambda xs, a: xs[0] + np.einsum("ik,kj->ij", xs[1], xs[2]),
-        nt=lambda a, s: list(s[0]) != [s[1][0], s[2][1]],
-        tags=lambda a, s: ["bias_broadcast" if list(s[0]) != [s[1][0], s[2][1]] else "bias_full"]),
+        lambda xs, a: xs[0] + np.einsum("...ik,...kj->...ij", xs[1], xs[2]),
+        nt=lambda a, s: list(s[0]) != _mm_shape(s),
+        tags=lambda a, s: (["bias_broadcast" if list(s[0]) != _mm_shape(s) else "bias_full"]
+                           + (["x1_larger_than_product"] if _size_of(s[0]) > _size_of(_mm_shape(s)) or len(s[0]) > len(_mm_shape(s)) else [])
+                           + (["batched_factors"] if len(s[1]) > 2 or len(s[2]) > 2 else []))),
     TOp("pow", gen_pow, apply_pow, lambda xs, a: np.power(xs[0], float(a["n"])),
         nt=lambda a, s: a["n"] not in (2, 2.0, 1, 1.0),
         tags=lambda a, s: ["int_exp" if float(a["n"]).is_integer() else "frac_exp"] + (["neg_exp"] if a["n"] < 0 else [])),
